@@ -2,4 +2,11 @@ package main
 
 import "qedverif/cq"
 
-func dispatch12(cmd string, out *cq.Out, seed uint64, tier, arg string) bool { return false }
+func dispatch12(cmd string, out *cq.Out, seed uint64, tier, arg string) bool {
+	switch cmd {
+	case "agents":
+		agentsCmd(out, seed, tier)
+		return true
+	}
+	return dispatch13(cmd, out, seed, tier, arg)
+}
